@@ -41,6 +41,8 @@ pub enum PTy {
     /// further mentions of the dependency's own type parameter `D` (named-generic deps only)
     DepsOpt,
     DepsVec,
+    /// `PhantomData<D>`: the dependency's type parameter again, in a position that does not need it `Sized`
+    DepsPhantom,
     /// `P::Out`: the only mention of type parameter `P` is through an associated type (nothing infers `P` from it)
     Proj,
     /// `&(dyn for<'h> LtLabel<'h> + Sync)`: an elided reference to a type that binds a lifetime of its own
@@ -87,6 +89,8 @@ pub struct Sig {
     pub bounds_in_where: usize,
     /// `?Sized` among the deps bounds (by-reference generic / impl deps only)
     pub deps_maybe_sized: bool,
+    /// the `?Sized` of the deps parameter may be written in the where clause (`where D: ?Sized + ..`) when all its bounds are
+    pub deps_relaxed_in_where: bool,
     /// `fn f<'d, D: .. + 'd>(deps: &'d D)`: a lifetime bound on the deps parameter (RefGeneric only)
     pub deps_lifetime_bound: bool,
     pub n_lifetimes: usize,
@@ -166,6 +170,7 @@ impl Sig {
             PTy::SliceNamed(l) => format!("&{} [u8]", LT[*l]),
             PTy::DepsOpt => "Option<D>".into(),
             PTy::DepsVec => "Vec<D>".into(),
+            PTy::DepsPhantom => "PhantomData<D>".into(),
             PTy::Proj => "P::Out".into(),
             PTy::RefDynHrtb => "&(dyn for<'h> LtLabel<'h> + Sync)".into(),
             PTy::ImplLt(l) => format!("impl LtLabel<{}>{}", LT[*l], if self.is_async && !self.maybe_send_off { " + Send" } else { "" }),
@@ -251,7 +256,8 @@ impl Sig {
                 let k = self.bounds_in_where.min(dep_bounds.len());
                 let mut split = dep_bounds.len() - k;
                 if self.deps_maybe_sized && self.deps == Deps::RefGeneric {
-                    split = split.max(1); // a relaxed bound must be written where the parameter is declared
+                    // the relaxed bound is written where the parameter is declared, or with all the others in the where clause
+                    split = if self.deps_relaxed_in_where { 0 } else { split.max(1) };
                 }
                 let k = dep_bounds.len() - split;
                 g.push(if split == 0 { "D".into() } else { format!("D: {}", dep_bounds[..split].join(" + ")) });
@@ -388,6 +394,7 @@ impl Sig {
             PTy::ImplFn => "fn(i32) -> i32".into(),
             PTy::DepsOpt => "Option<A>".into(),
             PTy::DepsVec => "Vec<A>".into(),
+            PTy::DepsPhantom => "PhantomData<A>".into(),
             PTy::Proj => "u8".into(),
             other => self.pty_src(other),
         }
@@ -636,6 +643,11 @@ pub fn gen_sig(t: &mut Tape, excl: &Excl) -> Sig {
         let at = t.choose(params.len() + 1);
         params.insert(at, p);
     }
+    // ... or, with a dependency that need not be `Sized`, in a position that does not need it to be
+    if deps == Deps::RefGeneric && deps_maybe_sized && !excl.deps_type_param_used_elsewhere && (!is_async || maybe_send_off) && t.flip() {
+        let at = t.choose(params.len() + 1);
+        params.insert(at, PTy::DepsPhantom);
+    }
     let has_gen = params.iter().any(|p| matches!(p, PTy::Gen | PTy::RefGenNamed(_)));
     let n_elided = params.iter().filter(|p| is_elided_ref(p)).count();
     // return type: only relations that are valid in the ORIGINAL fn
@@ -684,6 +696,7 @@ pub fn gen_sig(t: &mut Tape, excl: &Excl) -> Sig {
         bounds,
         bounds_in_where,
         deps_maybe_sized,
+        deps_relaxed_in_where: t.flip(),
         deps_lifetime_bound,
         n_lifetimes,
         lt_pred,
@@ -792,6 +805,28 @@ pub fn gen_case(t: &mut Tape, excl: &Excl) -> Case {
             "fn witness_ptr{wg}() {{\n    let _direct: {p_direct} = the_fn{tf};\n    let _via: {p_via} = <{self_ty} as TheTrait{targs}>::the_fn;\n}}\n"
         ));
     }
+    if sig.deps_maybe_sized {
+        // a dependency that need not be `Sized`: the method is there for implementors that are not (the call witness again,
+        // with an abstract `X: ?Sized + TheTrait` in the place of the application)
+        let w = sig.call_witness("the_fn", "TheTrait", true).replace("    is_send(&fut);\n", "");
+        let bound = format!("X: ?Sized + TheTrait{targs}");
+        let w = if w.starts_with("fn witness_call<") {
+            w.replacen("fn witness_call<", "fn witness_unsized<", 1).replacen('>', &format!(", {bound}>"), 1)
+        } else {
+            w.replacen("fn witness_call(", &format!("fn witness_unsized<{bound}>("), 1)
+        };
+        let mut out = String::new();
+        let bytes = w.as_bytes();
+        for (k, c) in w.char_indices() {
+            let word = |b: u8| b.is_ascii_alphanumeric() || b == b'_';
+            if c == 'A' && (k == 0 || !word(bytes[k - 1])) && (k + 1 >= bytes.len() || !word(bytes[k + 1])) {
+                out.push('X');
+            } else {
+                out.push(c);
+            }
+        }
+        real.push_str(&out);
+    }
     real.push_str(&sig.call_witness("the_fn", "TheTrait", true));
     real.push_str("pub fn run() -> Vec<String> { vec![] }\n");
     let mut twin = header();
@@ -839,6 +874,9 @@ pub fn gen_case(t: &mut Tape, excl: &Excl) -> Case {
     if sig.lt_pred {
         classes.push("lifetime_predicate");
     }
+    if sig.params.contains(&PTy::DepsPhantom) {
+        classes.push("deps_type_parameter_that_need_not_be_sized_mentioned_again");
+    }
     if sig.params.iter().any(|p| matches!(p, PTy::DepsOpt | PTy::DepsVec)) || sig.ret == RTy::DepsOpt {
         classes.push("deps_type_parameter_used_elsewhere");
     }
@@ -856,6 +894,9 @@ pub fn gen_case(t: &mut Tape, excl: &Excl) -> Case {
     }
     if sig.deps_maybe_sized {
         classes.push("deps_bound_?Sized");
+        if sig.deps == Deps::RefGeneric && sig.deps_relaxed_in_where {
+            classes.push("deps_bound_?Sized_in_the_where_clause");
+        }
     }
     if sig.phantom && sig.phantom_proj {
         classes.push("type_parameter_mentioned_only_through_an_associated_type");
